@@ -134,6 +134,11 @@ def units(tier, seed):
     wide = [b for b in bs if 1e-9 <= b[1] - b[0] < 1e300]
     triples = [(wide[i], wide[(i * 7 + 3) % len(wide)], wide[(i * 13 + 5) % len(wide)]) for i in range(0, len(wide), 3)]
     us += [{"kind": "f64multi", "triples": triples[i : i + 8]} for i in range(0, len(triples), 8)]
+    # beyond the small scope: one call with 5, 12 and 30 dimensions of different bounds (thousands of genes, dimensions that do not divide
+    # a power of two)
+    for nd in (5, 12, 30):
+        tuples = [tuple(wide[(i * 11 + 7 * j) % len(wide)] for j in range(nd)) for i in range(3)]
+        us.append({"kind": "f64multi", "triples": tuples})
     if tier == "thorough":
         v16 = [-5.0, -3.0, -0.1, 0.2, 0.3, 1.0, 3.0, 5.0, 123.4, 1000.0]
         b16 = [(a, b) for a, b in itertools.combinations(v16, 2)][:40]
